@@ -488,6 +488,16 @@ fn decoder_verdict(input: &CBOR, alias: bool, desc: &str) -> R {
     // (the recogniser runs after the decoder: digests the mutation created get their order from the decoder's own comparisons)
     let decoded = Envelope::try_from_cbor_data(data.clone());
     let verdict = grammar(&data);
+    // every decode route gives the same verdict and, when it accepts, the same envelope
+    for (route, r) in [("from_tagged_cbor_data", Envelope::from_tagged_cbor_data(&data)), ("TryFrom<CBOR>", CBOR::try_from_data(&data).map_err(anyhow::Error::from).and_then(Envelope::try_from)),
+                       ("from_untagged_cbor", Envelope::from_untagged_cbor(input.clone()))] {
+        match (&decoded, &r) {
+            (Ok(a), Ok(b)) => ensure!(bytes(a) == bytes(b) && a.is_identical_to(b), "decode routes accept the same input as different envelopes", "{}: {}", desc, route),
+            (Err(_), Err(_)) => {}
+            (Ok(_), Err(_)) => return rt::viol("decode routes disagree on whether input is acceptable", format!("{}: try_from_cbor_data accepts, {} refuses", desc, route)),
+            (Err(_), Ok(_)) => return rt::viol("decode routes disagree on whether input is acceptable", format!("{}: try_from_cbor_data refuses, {} accepts", desc, route)),
+        }
+    }
     match decoded {
         Err(_) => Ok(()),
         Ok(e) => {
